@@ -100,7 +100,10 @@ def diff_streams(rep, prop, cfg, tier, seed, binary, workdir, kf):
             # `self_evident`: the implementation's answer alone demonstrates the violation (e.g. the harness's own
             # transparency verdict, a panic where the property says "never panics"): a concrete failing input
             se = cfg.get('self_evident')
-            (oracle_fail if kind in oracle_ops or (se and se(o, i)) else corr_fail).append(rec)
+            # `spec_part`: the part of a correspondence operation's answer for which the model has been PROVED to be the
+            # specification (e.g. the HPACK table content, by C18.add_exact): a difference there is a property violation
+            sp = cfg.get('spec_part')
+            (oracle_fail if kind in oracle_ops or (se and se(o, i)) or (sp and sp(o, i, m)) else corr_fail).append(rec)
         rep.oblige(f'correspondence:{label}', 'correspondence', nfail == 0, f'{len(ops)} operations, {nfail} disagreement(s)')
         if cfg.get('race'):
             import glob
